@@ -302,6 +302,15 @@ func (r *run) open(a *actor, e Ev) {
 	if key == "" {
 		key = "k1"
 	}
+	if a.realtime {
+		// A realtime client whose entry is refused re-sends the refused request at once, for ever (see
+		// quietGone and DESIGN 10-24): it never asks for a key with another type than the key has (a REST
+		// patch of an absent key may have made it a Document meanwhile).
+		if have := r.typeOfKey(a.collection, key); have != "" && have != kind {
+			r.probe("realtime-open-skipped-other-type")
+			return
+		}
+	}
 	if a.realtime && r.prop != "C18" {
 		// (same reason as below) outside the realtime property a realtime client only makes entries that
 		// cannot be refused: subscribe-or-create with the type the key has, if it has one
